@@ -322,3 +322,18 @@ SPECS["C07"] = dict(
         dict(id="flood", run="^TestC07ShutdownUnderConnects$", quick=dict(shards=1, checks=40, timeout=600, shrinktime=20), thorough=dict(shards=2, checks=1000, timeout=3400, shrinktime=120)),
     ]),
 )
+
+SPECS["C06"] = dict(
+    level="exploration",
+    technique="property-based testing of real engine sessions (rapid): generated shutdown source, moment and concurrent activity, judged by completion/finality oracles over the callback record",
+    rule="a case is one engine configuration (incl. Rotate with 2..3 listeners, ticker with a drawn interval and a drawn time spent inside OnTick) with 0..60 (thorough 200) idle connections, 0..3 connections whose peer keeps sending, 0..2 with megabytes of unsent output, "
+         "0..4 goroutines connecting and 0..3 issuing AsyncWrite/Wake continuously; the shutdown source is Engine.Stop, package Stop, a Shutdown action from OnOpen/OnTraffic/OnClose/OnTick/a Wake-induced OnTraffic, OnBoot, or Client.Stop, requested after a drawn delay, optionally behind a backlog of 100..1500 queued async requests; "
+         "oracle: Run/Rotate/Client.Stop returns nil within the bound, every connection that saw OnOpen saw exactly one OnClose by then, OnShutdown ran exactly once, no callback (incl. a still-running OnTick) is observed after the return, the listen address refuses connections; OnBoot: immediate return, nothing started; "
+         "non-trivial = shutdown requested while a connection had unread/unsent data or connects were in flight; distinct = distinct case",
+    assumptions=ENGINE_ASSUME,
+    overlay=["verifx/c06"] + FX_OVERLAY,
+    max_parallel=12,
+    jobs=engine_jobs("c06", "./verifx/c06", [
+        dict(id="shutdown", run="^TestC06Shutdown$", quick=dict(shards=6, checks=60, timeout=600, shrinktime=30), thorough=dict(shards=4, checks=3000, timeout=3400, shrinktime=300)),
+    ]),
+)
